@@ -78,11 +78,30 @@ def threaded_sample(ctx, n):
         pipe.sink(consumer)
         raised = None
         t0 = time.time()
+        # sync() waits for the loop thread in slices (`while not e.is_set(): e.wait(10)`): in a third of the runs the slices are
+        # shortened to 5 ms, so that "the consumer takes longer than one slice" is reachable without waiting ten seconds
+        import threading as _threading
+        import streamz.core as _sc
+        short = i % 3 == 1
+
+        class _FastEvent(_threading.Event):
+            def wait(self, timeout=None):
+                return _threading.Event.wait(self, None if timeout is None else min(timeout, 0.005))
+
+        class _Shim:
+            Event = _FastEvent
+
+            def __getattr__(self, name):
+                return getattr(_threading, name)
+        if short:
+            _sc.threading = _Shim()
         try:
             src.emit(i)
         except Exception as e:  # noqa: BLE001
             raised = type(e).__name__
-        case = {"threaded": True, "delay": delay, "fail": fail, "rate_limit": bool(i % 2)}
+        finally:
+            _sc.threading = _threading
+        case = {"threaded": True, "delay": delay, "fail": fail, "rate_limit": bool(i % 2), "short_wait_slices": short}
         ctx.case(case, nontrivial=True)
         ctx.count("threaded")
         if fail and raised != "ValueError":
